@@ -934,20 +934,26 @@ public:
 	    \param val_sz size of value to be extracted, not including field separator
 	    \param val value to extract to
 	    \return number of bytes consumed */
-	static unsigned extract_element_fixed_width(const char *from, const unsigned sz, const unsigned val_sz, char *tag, char *val)
+	template<size_t TagSz, size_t ValSz>
+	static unsigned extract_element_fixed_width(const char *from, const unsigned sz, const unsigned val_sz, char (&tag)[TagSz], char (&val)[ValSz])
 	{
+		char *tptr(tag);
+		const char * const tend(tag + TagSz - 1); // keep room for the terminator
 		*val = *tag = 0;
 		for (unsigned ii(0); ii < sz; ++ii)
 		{
 			if(isdigit(from[ii]))
 			{
-				*tag++ = from[ii];
+				if (tptr == tend)	// tag does not fit the caller's buffer
+					break;
+				*tptr++ = from[ii];
 				continue;
 			}
 
-			if (from[ii++] != default_assignment_separator || sz < (ii + val_sz))
+			if (from[ii++] != default_assignment_separator || val_sz > ValSz - 1 || sz < (ii + val_sz))
 				break;
 
+			*tptr = 0;
 			::memcpy(val, &from[ii], val_sz);
 			val[val_sz] = 0;
 			return ii + val_sz + 1; // account for field separator
